@@ -423,6 +423,7 @@ func (e *Engine) globalPtr(g *ssa.Global) *PtrV {
 // allowZeroGlobal lists globals of uninterpreted packages that may be read as zero values.
 var allowZeroGlobal = map[string]bool{
 	"sync.expunged": true, "internal/godebug.empty": true,
+	"net/http.DefaultTransport": true, // nil until a harness installs a scripted RoundTripper (see (*http.Client).Do)
 }
 
 // skipInit lists packages whose initialisers are not interpreted (their globals keep zero values unless set by intrinsics).
